@@ -362,7 +362,8 @@ DOCOPS_DOCS = [("template", "spreadsheet"), ("file", "simple_table.ods"), ("temp
 
 def docops_alphabet(doc):
     names = [t.name for t in doc.body.get_tables()][:3]
-    ops_ = [("page_break",), ("weak_page_break",), ("delete_styles",), ("insert", "paragraph", "A"), ("insert_auto", "table")]
+    # (a common table style named like the names set_table_displayed generates: ta_<n>)
+    ops_ = [("page_break",), ("weak_page_break",), ("delete_styles",), ("insert", "paragraph", "A"), ("insert_auto", "table"), ("insert", "table", "ta_0"), ("insert", "table", "ta_1")]
     for i, n in enumerate(names[:2]):
         ops_ += [("displayed", i, False), ("displayed", n, True)]
     if len(names) > 2:
@@ -436,7 +437,11 @@ def docops_task(seed):
                 st = Style(op[1], name=op[2])
                 r = doc.insert_style(st)
                 f = doc.get_style(op[1], r)
-                if f is None or f._Element__element is not st._Element__element:
+                # (an automatic style of the same family and name already there is a clash made by the
+                # caller: which of the two the lookup answers is outside the domain, as in check_insert)
+                clash = f is not None and f._Element__element is not st._Element__element and style_key(f._Element__element) == style_key(st._Element__element) \
+                    and find_where(doc, f._Element__element) != find_where(doc, st._Element__element)
+                if (f is None or f._Element__element is not st._Element__element) and not clash:
                     rec(hist, "insert_style", "style-not-found-again", r, None if f is None else f.serialize()[:80])
             elif name == "insert_auto":
                 existing = {e.get("{%s}name" % STYLE_NS) for c in containers(doc).values() for e in c if isinstance(e.tag, str)}
